@@ -105,22 +105,34 @@ macro_rules! api { ($run:expr, |$r:ident, $u:ident| $load:expr, $wire:expr, $dir
     }
 }} }
 
+/// The rsync collector is made once per process (making one runs `rsync -h`); every case is a new run of it.
+/// Returns the config and the file the fake rsync appends its source argument to.
+fn rsync_env() -> &'static (Config, std::path::PathBuf, tempfile::TempDir) {
+    static E: OnceLock<(Config, std::path::PathBuf, tempfile::TempDir)> = OnceLock::new();
+    E.get_or_init(|| {
+        let dir = tempfile::tempdir().unwrap();
+        let log = dir.path().join("rsync.log");
+        let script = dir.path().join("fake-rsync.sh");
+        // the source (the module URI) is the last but one argument
+        std::fs::write(&script, format!(
+            "#!/bin/sh\nif [ \"$1\" = \"-h\" ]; then echo 'fake rsync'; exit 0; fi\n\
+             while [ $# -gt 2 ]; do shift; done\nprintf '%s\\n' \"$1\" >> '{}'\nexit 0\n", log.display())).unwrap();
+        use std::os::unix::fs::PermissionsExt;
+        std::fs::set_permissions(&script, std::fs::Permissions::from_mode(0o755)).unwrap();
+        let mut config = Config::default_with_paths(Default::default(), dir.path().join("cache"));
+        config.rsync_command = script.display().to_string();
+        config.disable_rrdp = true;
+        (config, log, dir)
+    })
+}
+
 fn start_rsync() -> Api {
-    let dir = tempfile::tempdir().unwrap();
-    let log = dir.path().join("rsync.log");
-    let script = dir.path().join("fake-rsync.sh");
-    // the source (the module URI) is the last but one argument
-    std::fs::write(&script, format!(
-        "#!/bin/sh\nif [ \"$1\" = \"-h\" ]; then echo 'fake rsync'; exit 0; fi\n\
-         while [ $# -gt 2 ]; do shift; done\nprintf '%s\\n' \"$1\" >> '{}'\nexit 0\n", log.display())).unwrap();
-    use std::os::unix::fs::PermissionsExt;
-    std::fs::set_permissions(&script, std::fs::Permissions::from_mode(0o755)).unwrap();
-    let mut config = Config::default_with_paths(Default::default(), dir.path().join("cache"));
-    config.rsync_command = script.display().to_string();
-    config.disable_rrdp = true;
+    let (config, log, _) = rsync_env();
     let run = config.verif_c37_rsync_run().expect("rsync collector");
+    let offset = std::fs::read_to_string(log).unwrap_or_default().lines().count();
     api!(run, |r, u| { r.load(&uri::Rsync::from_str(u).expect("rsync uri")); 0u8 },
-         move || std::fs::read_to_string(&log).unwrap_or_default().lines().map(|l| l.to_string()).collect(), dir)
+         move || std::fs::read_to_string(log).unwrap_or_default().lines().skip(offset).map(|l| l.to_string()).collect(),
+         tempfile::tempdir().unwrap())
 }
 
 fn start_rrdp() -> Api {
